@@ -1276,7 +1276,9 @@ func (c *ErrorConverter) From(obj interface{}) (Object, error) {
 	if !ok {
 		return nil, errz.TypeErrorf("type error: expected an error (%T given)", obj)
 	}
-	return NewError(err), nil
+	// The error is data here (the value of a field, an element, a global),
+	// not a failure that is being reported: the object is not raised
+	return NewError(err).WithRaised(false), nil
 }
 
 // ContextConverter converts between context.Context and Context.
